@@ -84,6 +84,16 @@ def inconclusive_exit(pid, reason):
     return 2
 
 
+def _die_with_parent():
+    """Child processes (symgo, native runners) are killed by the kernel when this driver dies,
+    so a timeout that kills the driver leaves no orphan solver processes behind."""
+    try:
+        import ctypes, signal
+        ctypes.CDLL("libc.so.6").prctl(1, signal.SIGKILL)  # PR_SET_PDEATHSIG
+    except Exception:
+        pass
+
+
 def harness_job(tier, h):
     name = h["name"]
     pkg, fn = name.split(".")
@@ -115,7 +125,7 @@ def run_group(gi, tier, hs, work, overlay):
     for p in pkgs:
         cmd += ["-pkg", p]
     t0 = time.time()
-    r = subprocess.run(cmd, cwd=HARNESS_DIR, env=ENV, capture_output=True, text=True)
+    r = subprocess.run(cmd, cwd=HARNESS_DIR, env=ENV, capture_output=True, text=True, preexec_fn=_die_with_parent)
     wall = time.time() - t0
     got = []
     if os.path.exists(out):
